@@ -312,12 +312,20 @@ fn decode(ctl: &[u8]) -> Tree {
         let item: String = mods[tm].fns.keys().chain(mods[tm].consts.keys()).next().unwrap().clone();
         let mut chain: Vec<Vec<String>> = Vec::new();
         // pkg.<m1> ... then <m_i>.<m_i+1> ... then <m_last>.<item>
-        let keep = 1 + c.below(tp.len() - 1);
-        let mut first: Vec<String> = vec!["pkg".into()];
-        for t in &tp[1..=keep] {
-            first.push(mods[*t].name.clone());
+        let mut keep = 1 + c.below(tp.len() - 1);
+        let own = tp.iter().position(|t| *t == m).filter(|i| i + 2 < tp.len());
+        if let (Some(i), true) = (own, c.chance(160)) {
+            // the module is an ancestor of the target: the chain starts at its own child, a name
+            // the scope declares itself (which goes before every import, also before an alias of
+            // the same name that a later link of the chain introduces: pkg.a.b.a)
+            keep = i + 1;
+        } else {
+            let mut first: Vec<String> = vec!["pkg".into()];
+            for t in &tp[1..=keep] {
+                first.push(mods[*t].name.clone());
+            }
+            chain.push(first);
         }
-        chain.push(first);
         for w in keep..tp.len() - 1 {
             chain.push(vec![mods[tp[w]].name.clone(), mods[tp[w + 1]].name.clone()]);
         }
@@ -333,6 +341,44 @@ fn decode(ctl: &[u8]) -> Tree {
         for i in (1..n).rev() {
             let j = c.below(i + 1);
             mods[m].imports.swap(i, j);
+        }
+    }
+    // two imports that introduce each other's first name, where one of those names is also a child
+    // the scope declares itself: m has child a, a has child b, b has child a (added if missing), m has
+    // no child b; `import a.b; import b.a;` in either order.  The declared `a` goes before the alias
+    // `a`, so the first import never has to wait for the second; the second needs the first.
+    if c.chance(40) {
+        let mut cands: Vec<(usize, usize, usize)> = Vec::new();
+        for m in 0..mods.len() {
+            for &c1 in &mods[m].children {
+                for &c2 in &mods[c1].children {
+                    if !mods[m].children.iter().any(|x| mods[*x].name == mods[c2].name) && mods[c2].name != mods[c1].name {
+                        cands.push((m, c1, c2));
+                    }
+                }
+            }
+        }
+        if !cands.is_empty() {
+            let (m, c1, c2) = cands[c.below(cands.len())];
+            let n1 = mods[c1].name.clone();
+            let n2 = mods[c2].name.clone();
+            if !mods[c2].children.iter().any(|x| mods[*x].name == n1) {
+                let id = mods.len();
+                let mut fns = BTreeMap::new();
+                fns.insert(FN_NAMES[c.below(FN_NAMES.len())].to_string(), tag);
+                tag += 1;
+                mods.push(Module { name: n1.clone(), parent: Some(c2), children: vec![], fns, consts: BTreeMap::new(), imports: vec![], as_dir: c.chance(100), has_type: false });
+                mods[c2].children.push(id);
+            }
+            let (a, b) = (vec![n1.clone(), n2.clone()], vec![n2.clone(), n1.clone()]);
+            mods[m].imports.retain(|q| q.last() != Some(&n1) && q.last() != Some(&n2) && q.first() != Some(&n2));
+            if c.chance(128) {
+                mods[m].imports.push(a);
+                mods[m].imports.push(b);
+            } else {
+                mods[m].imports.push(b);
+                mods[m].imports.push(a);
+            }
         }
     }
     let n_probes = 1 + c.below(4);
